@@ -165,7 +165,7 @@ func init() {
 	run.Register(run.Prop[C01Case]{
 		ID:    "C01",
 		Level: "exploration",
-		Rule: "case = configuration (key type, value type, bf, format, cache, marshaler, in-memory) + generated fill + program of <=80 (quick) / <=160 (thorough) ops over 2 slots, every op result compared with a sorted-map model, " +
+		Rule: "case = configuration (key type, value type incl. float64 with both zeros - one zero never written over the other, reads compared bit for bit -, bf, format, cache, marshaler, in-memory) + generated fill + program of <=80 (quick) / <=160 (thorough) ops over 2 slots, every op result compared with a sorted-map model, " +
 			"full Size/Iter comparison after every read-only op, every 8th step and at the end. Non-trivial = at least one successful delete AND height >= 2 reached AND at least one mutation after a reload; distinct by hash of the whole case",
 		Assumptions: []string{"encoding/json is the configured default marshaler (configuration, not code under test)", "nil keys and nil values are not generated (not documented as supported)"},
 		Gen:         genC01,
